@@ -945,6 +945,13 @@ impl Engine {
                     out.push_str(&format!("(assert (= {} 0.0))\n(assert (= {} 1.0))\n", f1, f2));
                     if fam == Fam::Hyp { out.push_str(&format!("(assert (= (uf_exp {}) 1.0))\n", u)); }
                 }
+                Node::Const(_) if fam == Fam::Trig && u.contains("pi") => {
+                    // named constants (cfg.named_constants): the exact values of sin and cos at pi/2, pi, 2 pi and their negatives
+                    let vals = match u.as_str() {
+                        "(/ pi 2.0)" => Some(("1.0", "0.0")), "(- (/ pi 2.0))" => Some(("(- 1.0)", "0.0")),
+                        "pi" | "(- pi)" => Some(("0.0", "(- 1.0)")), "(* 2.0 pi)" => Some(("0.0", "1.0")), _ => None };
+                    if let Some((sv, cv)) = vals { out.push_str(&format!("(assert (= {} {}))\n(assert (= {} {}))\n", f1, sv, f2, cv)); }
+                }
                 Node::Neg(a) => {
                     let (au, aid) = sub(*a);
                     out.push_str(&format!("(assert (= {} (- ({} {}))))\n(assert (= {} ({} {})))\n", f1, k1, au, f2, k2, au));
